@@ -162,9 +162,11 @@ def inventory(ctx: Ctx) -> list[tuple]:
                   reason="a predicate on a missing column must be rejected with ColumnError")],
         non_identity, "non-identity return",
     ))
+    sort_begin = _op_func(ctx, "Sort", "_begin_apply")
+    term_v = next((src(n.target) for n in ast.walk(sort_begin.node) if isinstance(n, ast.For) and src(n.iter) == "self.terms"), "term")
     inv.append((
-        _op_func(ctx, "Sort", "_begin_apply"),
-        [Required("term-columns-present", "LE", ("term.expression.columns_required", "self.columns_required"), ("{p0}.columns",), True, "ColumnError",
+        sort_begin,
+        [Required("term-columns-present", "LE", (f"{term_v}.expression.columns_required", "self.columns_required"), ("{p0}.columns",), True, "ColumnError",
                   loop_over="self.terms", reason="a sort term on a missing column must be rejected with ColumnError")],
         non_identity, "non-identity return",
     ))
@@ -189,9 +191,11 @@ def inventory(ctx: Ctx) -> list[tuple]:
         ],
         any_exit, "return",
     ))
+    acc = _op_func(ctx, "Join", "applied_common_columns")
+    cc_v = next((src(n.targets[0]) for n in ast.walk(acc.node) if isinstance(n, ast.Assign) and isinstance(n.value, (ast.SetComp, ast.Call, ast.BinOp)) and isinstance(n.targets[0], ast.Name)), "common_columns")
     inv.append((
-        _op_func(ctx, "Join", "applied_common_columns"),
-        [Required("resolved-superset-of-min", "LE", ("self.min_columns",), ("common_columns",), True, "ColumnError",
+        acc,
+        [Required("resolved-superset-of-min", "LE", ("self.min_columns",), (cc_v,), True, "ColumnError",
                   vacuous=("EQ(self.max_columns, self.min_columns)",), reason="resolved common columns must include min_columns")],
         any_exit, "return",
     ))
@@ -301,7 +305,19 @@ def r20_3_who_may_bypass(ctx: Ctx) -> None:
             if recv == "self" and fi.cls is not None and fi.cls in ctx.k.placeholders:
                 run.ok("R20.3", inst, {"why": "placeholder's own pass-through"})
                 continue
-            allowed = _BYPASS_OK.get((fi.module.rel, fi.qualname), {})
+            allowed = dict(_BYPASS_OK.get((fi.module.rel, fi.qualname), {}))
+            # locals are recognised by what they are bound to, not by their name
+            recv_root = recv.split(".")[0]
+            for n in ast.walk(fi.node):
+                val = None
+                if isinstance(n, ast.NamedExpr) and isinstance(n.target, ast.Name) and n.target.id == recv_root:
+                    val = n.value
+                elif isinstance(n, ast.Assign) and any(isinstance(t, ast.Name) and t.id == recv_root for t in n.targets):
+                    val = n.value
+                if isinstance(val, ast.Call) and call_attr(val) == "simplify" and recv == recv_root and "simplified" in allowed:
+                    allowed[recv] = allowed["simplified"]
+                if isinstance(val, ast.Call) and call_attr(val) == "commute" and recv == f"{recv_root}.second" and "commutator.second" in allowed:
+                    allowed[recv] = allowed["commutator.second"]
             # a pattern capture of the sanctioned parameter counts as that parameter
             root = recv
             if recv not in allowed:
